@@ -1448,9 +1448,27 @@ func (e *Exec) sliceOp(fr *frame, ins *ssa.Slice) Value {
 		t := e.toIdx(e.get(fr, v), v.Type())
 		return int(int64(e.concretize(t, "slice bound")))
 	}
+	// symbolic bounds: decide "out of range" (the Go runtime panic) as a branch BEFORE concretising, so
+	// that an unbounded wrong bound is a reported panic path and not an unwinding failure
+	rangeCheck := func(capN int, lenN int) {
+		term := func(v ssa.Value, def int) *Term {
+			if v == nil {
+				return e.ts.BV(64, uint64(def))
+			}
+			return e.toIdx(e.get(fr, v), v.Type())
+		}
+		lo, hi, mx := term(ins.Low, 0), term(ins.High, lenN), term(ins.Max, capN)
+		if lo.IsConst() && hi.IsConst() && mx.IsConst() {
+			return
+		}
+		zero, c := e.ts.BV(64, 0), e.ts.BV(64, uint64(capN))
+		bad := e.ts.Or(e.ts.Cmp(OpSlt, lo, zero), e.ts.Or(e.ts.Cmp(OpSlt, hi, lo), e.ts.Or(e.ts.Cmp(OpSlt, mx, hi), e.ts.Cmp(OpSlt, c, mx))))
+		e.boundsBranch(bad, "runtime error: slice bounds out of range (symbolic bound)")
+	}
 	switch xv := x.(type) {
 	case *Str:
 		n := xv.Len()
+		rangeCheck(n, n)
 		lo := getBound(ins.Low, 0)
 		hi := getBound(ins.High, n)
 		if lo < 0 || hi < lo || hi > n {
@@ -1461,6 +1479,7 @@ func (e *Exec) sliceOp(fr *frame, ins *ssa.Slice) Value {
 		}
 		return e.mkStr(xv.b[lo:hi])
 	case Slice:
+		rangeCheck(xv.cap, xv.len)
 		lo := getBound(ins.Low, 0)
 		hi := getBound(ins.High, xv.len)
 		mx := getBound(ins.Max, xv.cap)
@@ -1476,6 +1495,7 @@ func (e *Exec) sliceOp(fr *frame, ins *ssa.Slice) Value {
 			e.goPanicStr("runtime error: slice of nil array pointer")
 		}
 		n := len(xv.loc.kids)
+		rangeCheck(n, n)
 		lo := getBound(ins.Low, 0)
 		hi := getBound(ins.High, n)
 		mx := getBound(ins.Max, n)
